@@ -62,6 +62,13 @@ def cases(ctx, zone: str):
         yield {"tz": zone, "version": version, "metric": metric,
                "steps": prefix(version, sleeping, stored, reboot) + [["rx", message + "\n"]]}
     ctx.exhaustive["single-step-state-x-message"] = ctx.exhaustive.get("single-step-state-x-message", 0) + count
+    # id requests on registries whose highest id is near the top of the range (an id is still free / none is)
+    for version, highest, request in itertools.product([None, *VERSIONS], (1, 100, 252, 253, 254, 255),
+                                                       ("255;255;3;0;3;", "255;7;3;0;3;", "9;255;3;1;3;x")):
+        if ctx.mine():
+            yield {"tz": zone, "version": version, "steps": [
+                ["restore", highest, {"type": 17, "version": "2.0", "children": {}}],
+                ["rx", request + "\n"], ["rx", request + "\n"]]}
     for i in range(ctx.pick(100, 4000) // ctx.shard_count):
         version = [None, None, *VERSIONS][i % 7]
         gen = histories.HistoryGen(rng, version)
